@@ -63,6 +63,15 @@ def expectations():
     for fn in sorted(os.listdir(os.path.join(VERIF, "selftest", "refactor_corpus"))):
         if fn.endswith(".diff"):
             exp[fn[:-5]] = ("silent", PROPS)
+    # repaired seeds: behaviour-preserving, but many of them bring a new mechanism (a cache, a second data structure, another
+    # algorithm) whose equivalence is a semantic argument; those listed in stress_corpus/EXPECTED_SILENT must stay silent,
+    # the others are reported for information only
+    sc = os.path.join(VERIF, "selftest", "stress_corpus")
+    if os.path.isdir(sc):
+        keep = set(open(os.path.join(sc, "EXPECTED_SILENT")).read().split()) if os.path.exists(os.path.join(sc, "EXPECTED_SILENT")) else set()
+        for fn in sorted(os.listdir(sc)):
+            if fn.endswith(".diff"):
+                exp[fn[:-5]] = ("silent", PROPS) if fn[:-5] in keep else ("info", PROPS)
     return exp
 
 
@@ -117,6 +126,8 @@ def main(argv):
                         print("            %s: %s" % (k, d[:170]))
             elif verbose:
                 print("ok       %-40s silent" % n)
+        elif kind == "info":
+            print("stress   %-40s %s" % (n, ("fails closed under %s" % fired) if fired else "silent"))
         else:
             print("?        %-40s fired %s" % (n, fired))
     print("%d variant(s), %d wrong" % (len(names) - 1, wrong))
